@@ -553,7 +553,7 @@ pub fn tokenize(src: &str) -> Vec<&str> {
 
 pub const TOKEN_POOL: &[&str] = &[
     "(", ")", "[", "]", "{", "}", ",", ":", ".", "->", "=>", "=", "==", ":=", "..", "..=", "?", "?.", "+", "-", "*", "/", "\"", "\\", "#", "/*", "*/", "@", "stream", "event", "fn", "if", "else:", "elif", "for", "while", "in", "not", "and", "or", "all", "as", "where", "within",
-    "pattern", "SEQ", "NOT", "AND", "config", "connector", "context", "return", "emit", "let", "var", "const", "import", "type", "then", "0", "1", "5s", "1.5", "\"s\"", "true", "null", "x", "for i in 0..3:", "{i}", "{", "\n", "\n    ", "\n        ", "\n\t", " ", "\r\n",
+    "pattern", "SEQ", "NOT", "AND", "config", "connector", "context", "return", "emit", "let", "var", "const", "import", "type", "then", "0", "1", "5s", "1.5", "\"s\"", "true", "null", "x", "for i in 0..3:", "\nfor i in 0..=2:\n  ", "\nfor i in -9223372036854775808..9223372036854775807:\n    ", "\nfor k in 0..=9223372036854775807:\n    ", "\nfor i in 0..10001:\n    ", "\nfor i in 5..2:\n    ", "{i}", "{k}", "{", "\n", "\n    ", "\n        ", "\n\t", " ", "\r\n",
 ];
 
 pub const HOSTILE_TEXT: &[&str] = &[
@@ -570,6 +570,46 @@ fn char_pos(s: &str, sel: u16) -> usize {
     p
 }
 
+/// Depth from which nested *index* brackets (`a[a[a[…`) are left out of the generated
+/// domain: the grammar re-parses the bracket content for `slice_access` and then
+/// `index_access`, i.e. parse time doubles per level (≈0.6 s at 17, ≈80 s at 24, the
+/// parser's own nesting cap).  Time is not a verdict in these checks, so such inputs only
+/// burn the budget; the blow-up itself is documented by C41's `nesting_profile` evidence.
+pub const MAX_INDEX_NEST: usize = 15;
+
+/// Maximal number of simultaneously open postfix-index brackets (`x[`, `)[`, `][`) in a
+/// text, ignoring strings and comments only approximately (over-approximation is fine:
+/// it is used to leave the exponential zone out of the domain, see `MAX_INDEX_NEST`).
+pub fn index_nest_depth(src: &str) -> usize {
+    let b = src.as_bytes();
+    let mut stack: Vec<bool> = vec![];
+    let mut open_idx = 0usize;
+    let mut max = 0usize;
+    let mut prev = b' ';
+    for &c in b {
+        match c {
+            b'[' | b'(' | b'{' => {
+                let is_index = c == b'[' && (prev.is_ascii_alphanumeric() || prev == b'_' || prev == b']' || prev == b')');
+                stack.push(is_index);
+                if is_index {
+                    open_idx += 1;
+                    max = max.max(open_idx);
+                }
+            }
+            b']' | b')' | b'}' => {
+                if let Some(true) = stack.pop() {
+                    open_idx -= 1;
+                }
+            }
+            _ => {}
+        }
+        if !(c == b' ' || c == b'\t' || c == b'\r' || c == b'\n') {
+            prev = c;
+        }
+    }
+    max
+}
+
 fn nest_run(t: &mut Tape) -> (String, String) {
     let depth = match t.below(4) {
         0 => 1 + t.below(4),
@@ -580,8 +620,9 @@ fn nest_run(t: &mut Tape) -> (String, String) {
     let style = t.below(6);
     let mut open = String::new();
     let mut close = String::new();
+    let mut index_levels = 0;
     for k in 0..depth {
-        let (o, c) = match style {
+        let (mut o, mut c) = match style {
             0 => ("(", ")"),
             1 => ("[", "]"),
             2 => ("{", "}"),
@@ -589,6 +630,14 @@ fn nest_run(t: &mut Tape) -> (String, String) {
             4 => ("a[", "]"),
             _ => [("(", ")"), ("[", "]"), ("{a: ", "}"), ("f(", ")"), ("x[", "]"), ("-(", ")"), ("not (", ")")][(k + t.below(7)) % 7],
         };
+        if o.ends_with('[') && o.len() == 2 {
+            index_levels += 1;
+            // beyond the parser's cap (24) the pre-scan rejects the text before pest runs
+            if index_levels > MAX_INDEX_NEST && depth <= 26 {
+                o = "(";
+                c = ")";
+            }
+        }
         open.push_str(o);
         close.insert_str(0, c);
     }
